@@ -188,13 +188,19 @@ Ltac finish c :=
   apply f_equal; apply obs_ext; try reflexivity; try apply andb_true_r;
   try (destruct (c_nocigar c); cbn [negb]; apply f_equal; lia); try (apply f_equal; lia).
 
-(* ------------------------------------------------------------------ NlaIII: site of a simulated read *)
-Lemma nla_site : forall c cycles mid p reverse clip tail pre,
-  good_mid mid = true -> py_prefix 4 cycles = CATG -> (c_nocigar c = false \/ clip = 0) ->
-  nla_fragment c true pre (Some (simulate_nla cycles mid p reverse clip tail false)) =
-  Done (site_obs p (xorb reverse (c_invert c)) reverse (Some CATG) pre).
+Lemma clip_shift_0 : forall c reverse clip, (c_nocigar c = false \/ clip = 0) -> clip_shift c reverse clip = 0.
 Proof.
-  intros c cycles mid p reverse clip tail pre Hmid Hmotif Hclip.
+  intros c reverse clip [H | H]; unfold clip_shift; [rewrite H; reflexivity|].
+  subst. destruct (c_nocigar c), reverse; reflexivity.
+Qed.
+
+(* ------------------------------------------------------------------ NlaIII: site of a simulated read *)
+Lemma nla_site_any : forall c cycles mid p reverse clip tail pre,
+  good_mid mid = true -> py_prefix 4 cycles = CATG ->
+  nla_fragment c true pre (Some (simulate_nla cycles mid p reverse clip tail false)) =
+  Done (site_obs (p + clip_shift c reverse clip) (xorb reverse (c_invert c)) reverse (Some CATG) pre).
+Proof.
+  intros c cycles mid p reverse clip tail pre Hmid Hmotif.
   unfold simulate_nla, place_read, nla_fragment. destruct reverse.
   - rewrite usable_wrapped by exact Hmid.
     cbn [negb r_unmapped r_cigar r_rev r_start r_seq]. unfold ref_end. cbn [r_start r_cigar].
@@ -204,7 +210,7 @@ Proof.
     rewrite trail_clip_correction by exact Hmid.
     change (revcomp CATG) with CATG. change (str_eqb CATG [67; 65; 84; 71]) with true.
     cbn [negb]. rewrite andb_false_r, orb_true_r. cbn [andb]. cbv beta iota. unfold site_obs.
-    destruct (c_invert c); (destruct Hclip as [Hc | Hc]; [rewrite Hc | subst clip]); cbn [negb xorb]; finish c.
+    destruct (c_invert c); cbn [negb xorb]; unfold clip_shift; finish c.
   - rewrite usable_wrapped by exact Hmid.
     cbn [negb r_unmapped r_cigar r_rev r_start r_seq]. unfold ref_end. cbn [r_start r_cigar].
     cbv beta iota zeta delta [nla_site_gen].
@@ -212,8 +218,18 @@ Proof.
     rewrite lead_clip_correction by exact Hmid.
     change (str_eqb CATG [67; 65; 84; 71]) with true.
     cbn [negb]. rewrite orb_true_r. cbn [andb]. cbv beta iota. unfold site_obs.
-    destruct (c_invert c); (destruct Hclip as [Hc | Hc]; [rewrite Hc | subst clip]); cbn [negb xorb]; finish c.
+    destruct (c_invert c); cbn [negb xorb]; unfold clip_shift; finish c.
 Qed.
+
+Lemma nla_site : forall c cycles mid p reverse clip tail pre,
+  good_mid mid = true -> py_prefix 4 cycles = CATG -> (c_nocigar c = false \/ clip = 0) ->
+  nla_fragment c true pre (Some (simulate_nla cycles mid p reverse clip tail false)) =
+  Done (site_obs p (xorb reverse (c_invert c)) reverse (Some CATG) pre).
+Proof.
+  intros c cycles mid p reverse clip tail pre Hmid Hmotif Hclip.
+  rewrite nla_site_any by assumption. rewrite (clip_shift_0 c reverse clip Hclip), Z.add_0_r. reflexivity.
+Qed.
+
 
 (* ------------------------------------------------------------------ NlaIII: rejection (any mapped read) *)
 Lemma nla_reject : forall c r pre,
@@ -299,13 +315,13 @@ Proof.
 Qed.
 
 (* ------------------------------------------------------------------ NlaIII: lost first cycle, allow_cycle_shift *)
-Lemma nla_shift : forall c cycles mid p reverse clip tail pre,
+Lemma nla_shift_any : forall c cycles mid p reverse clip tail pre,
   good_mid mid = true -> c_check_motif c = true -> c_allow_shift c = true ->
-  py_prefix 4 cycles = CATG -> (c_nocigar c = false \/ clip = 0) ->
+  py_prefix 4 cycles = CATG ->
   nla_fragment c true pre (Some (simulate_nla cycles mid p reverse clip tail true)) =
-  Done (site_obs p (xorb reverse (c_invert c)) reverse (Some (if reverse then CAT else ATG)) pre).
+  Done (site_obs (p + clip_shift c reverse clip) (xorb reverse (c_invert c)) reverse (Some (if reverse then CAT else ATG)) pre).
 Proof.
-  intros c cycles mid p reverse clip tail pre Hmid Hcm Hsh Hmotif Hclip.
+  intros c cycles mid p reverse clip tail pre Hmid Hcm Hsh Hmotif.
   destruct (lost_cycle_shape cycles Hmotif) as [rest ->].
   unfold simulate_nla, place_read, nla_fragment. cbn [tl]. destruct reverse.
   - rewrite usable_wrapped by exact Hmid.
@@ -319,7 +335,7 @@ Proof.
     assert (E2 : py_endswith [67; 65; 84] (revcomp (py_prefix 4 (65 :: 84 :: 71 :: rest))) = true).
     { change [67; 65; 84] with CAT. rewrite endswith_CAT_revcomp. reflexivity. }
     rewrite E1, E2. cbn [negb orb andb]. rewrite !andb_false_r. cbv beta iota. unfold site_obs.
-    destruct (c_invert c); (destruct Hclip as [Hc | Hc]; [rewrite Hc | subst clip]); cbn [negb xorb]; finish c.
+    destruct (c_invert c); cbn [negb xorb]; unfold clip_shift; finish c.
   - rewrite usable_wrapped by exact Hmid.
     cbn [negb r_unmapped r_cigar r_rev r_start r_seq]. unfold ref_end. cbn [r_start r_cigar].
     cbv beta iota zeta delta [nla_site_gen].
@@ -328,8 +344,19 @@ Proof.
     assert (E1 : str_eqb (py_prefix 4 (65 :: 84 :: 71 :: rest)) [67; 65; 84; 71] = false) by reflexivity.
     assert (E2 : py_startswith [65; 84; 71] (py_prefix 4 (65 :: 84 :: 71 :: rest)) = true) by reflexivity.
     rewrite E1, E2. cbn [negb orb andb]. rewrite ?andb_false_r. cbv beta iota. unfold site_obs.
-    destruct (c_invert c); (destruct Hclip as [Hc | Hc]; [rewrite Hc | subst clip]); cbn [negb xorb]; finish c.
+    destruct (c_invert c); cbn [negb xorb]; unfold clip_shift; finish c.
 Qed.
+
+Lemma nla_shift : forall c cycles mid p reverse clip tail pre,
+  good_mid mid = true -> c_check_motif c = true -> c_allow_shift c = true ->
+  py_prefix 4 cycles = CATG -> (c_nocigar c = false \/ clip = 0) ->
+  nla_fragment c true pre (Some (simulate_nla cycles mid p reverse clip tail true)) =
+  Done (site_obs p (xorb reverse (c_invert c)) reverse (Some (if reverse then CAT else ATG)) pre).
+Proof.
+  intros c cycles mid p reverse clip tail pre Hmid Hcm Hsh Hmotif Hclip.
+  rewrite nla_shift_any by assumption. rewrite (clip_shift_0 c reverse clip Hclip), Z.add_0_r. reflexivity.
+Qed.
+
 
 (* ------------------------------------------------------------------ scCHIC: site of a simulated read *)
 Lemma r2_ok_orient : forall reverse r2, r2_ok reverse r2 = true ->
@@ -338,13 +365,14 @@ Proof.
   intros reverse [[[|] rev2]|] H; cbn in *; try reflexivity. apply negb_true_iff in H. exact H.
 Qed.
 
-Lemma chic_site : forall c cycles mid x reverse clip tail trimmed mx pre r2,
-  good_mid mid = true -> mx_trimmed mx = trimmed -> (c_nocigar c = false \/ clip = 0) ->
+Lemma chic_site_any : forall c cycles mid x reverse clip tail trimmed mx pre r2,
+  good_mid mid = true -> mx_trimmed mx = trimmed ->
   r2_ok reverse r2 = true ->
   chic_fragment c pre (Some (simulate_chic cycles mid x reverse clip tail trimmed mx)) r2 =
-  Done (site_obs (if reverse then x + 1 else x - 1) (xorb reverse (c_invert c)) (xorb reverse (c_invert c)) None pre).
+  Done (site_obs ((if reverse then x + 1 else x - 1) + clip_shift c reverse clip)
+                 (xorb reverse (c_invert c)) (xorb reverse (c_invert c)) None pre).
 Proof.
-  intros c cycles mid x reverse clip tail trimmed mx pre r2 Hmid Hmx Hclip Hr2.
+  intros c cycles mid x reverse clip tail trimmed mx pre r2 Hmid Hmx Hr2.
   apply r2_ok_orient in Hr2.
   unfold simulate_chic, place_read, chic_fragment. destruct reverse.
   - cbn [r_unmapped r_rev]. rewrite Hr2. rewrite usable_wrapped by exact Hmid.
@@ -356,7 +384,7 @@ Proof.
     rewrite trail_clip_correction by exact Hmid.
     unfold site_obs.
     destruct trimmed; cbv beta iota;
-      destruct (c_invert c); (destruct Hclip as [Hc | Hc]; [rewrite Hc | subst clip]); cbn [negb xorb]; finish c.
+      destruct (c_invert c); cbn [negb xorb]; unfold clip_shift; finish c.
   - cbn [r_unmapped r_rev]. rewrite Hr2. rewrite usable_wrapped by exact Hmid.
     cbn [negb r_cigar r_rev r_start r_mx]. unfold ref_end. cbn [r_start r_cigar].
     change (match mx with Some mx0 => py_startswith s_scCHIC mx0 | None => false end) with (mx_trimmed mx).
@@ -365,8 +393,26 @@ Proof.
     rewrite lead_clip_correction by exact Hmid.
     unfold site_obs.
     destruct trimmed; cbv beta iota;
-      destruct (c_invert c); (destruct Hclip as [Hc | Hc]; [rewrite Hc | subst clip]); cbn [negb xorb]; finish c.
+      destruct (c_invert c); cbn [negb xorb]; unfold clip_shift; finish c.
 Qed.
+
+Lemma chic_site : forall c cycles mid x reverse clip tail trimmed mx pre r2,
+  good_mid mid = true -> mx_trimmed mx = trimmed -> (c_nocigar c = false \/ clip = 0) ->
+  r2_ok reverse r2 = true ->
+  chic_fragment c pre (Some (simulate_chic cycles mid x reverse clip tail trimmed mx)) r2 =
+  Done (site_obs (if reverse then x + 1 else x - 1) (xorb reverse (c_invert c)) (xorb reverse (c_invert c)) None pre).
+Proof.
+  intros c cycles mid x reverse clip tail trimmed mx pre r2 Hmid Hmx Hclip Hr2.
+  rewrite chic_site_any by assumption. rewrite (clip_shift_0 c reverse clip Hclip), Z.add_0_r. reflexivity.
+Qed.
+
+Lemma chic_site_any_h : forall c cycles mid x reverse clip tail trimmed mx pre r2 seqs,
+  good_mid mid = true -> mx_trimmed mx = trimmed -> r2_ok reverse r2 = true -> any_homopolymer seqs = false ->
+  chic_fragment_h c pre (Some (simulate_chic cycles mid x reverse clip tail trimmed mx)) r2 seqs =
+  Done (site_obs ((if reverse then x + 1 else x - 1) + clip_shift c reverse clip)
+                 (xorb reverse (c_invert c)) (xorb reverse (c_invert c)) None pre).
+Proof. intros. unfold chic_fragment_h. rewrite H2. apply chic_site_any; assumption. Qed.
+
 
 (* ------------------------------------------------------------------ mirror symmetry *)
 Lemma usable_nonempty : forall nc s cg rv sq um mx, cg <> [] -> usable nc (mkRead s cg rv sq um mx) = true.
@@ -548,4 +594,119 @@ Lemma mol_fold_reverse : forall rest cur, Forall (fun f => fst f = true) rest ->
 Proof.
   induction rest as [|f rest IH]; intros cur H; [reflexivity|]. inversion H as [|? ? Hf Hr]; subst.
   cbn [map fold_left]. rewrite IH by exact Hr. unfold mol_update. rewrite Hf. rewrite Z.max_comm. reflexivity.
+Qed.
+
+(* ------------------------------------------------------------------ homopolymer filter: strand symmetry *)
+Lemma startswith_iff : forall p s, py_startswith p s = true <-> exists b, s = p ++ b.
+Proof.
+  intros p s. unfold py_startswith, py_prefix. rewrite str_eqb_eq. split.
+  - intro H. exists (skipn (length p) s). rewrite <- H at 1. symmetry. apply firstn_skipn.
+  - intros [b ->]. rewrite firstn_app, firstn_all, Nat.sub_diag. cbn [firstn]. apply app_nil_r.
+Qed.
+
+Lemma contains_iff : forall p s, py_contains p s = true <-> exists a b, s = a ++ p ++ b.
+Proof.
+  intros p s. induction s as [|x s IH]; cbn [py_contains]; rewrite orb_true_iff.
+  - split.
+    + intros [H | H]; [|discriminate]. apply startswith_iff in H. destruct H as [b H]. exists [], b. exact H.
+    + intros [a [b H]]. left. apply startswith_iff.
+      destruct a; [exists b; exact H | discriminate H].
+  - split.
+    + intros [H | H].
+      * apply startswith_iff in H. destruct H as [b H]. exists [], b. exact H.
+      * apply IH in H. destruct H as [a [b ->]]. exists (x :: a), b. reflexivity.
+    + intros [a [b H]]. destruct a as [|y a].
+      * left. apply startswith_iff. exists b. exact H.
+      * right. apply IH. inversion H; subst. exists a, b. reflexivity.
+Qed.
+
+Lemma revcomp_app : forall a b, revcomp (a ++ b) = revcomp b ++ revcomp a.
+Proof. intros. unfold revcomp. rewrite map_app, rev_app_distr. reflexivity. Qed.
+
+Lemma rev_repeat : forall (A : Type) (x : A) n, rev (repeat x n) = repeat x n.
+Proof.
+  intros A x n. induction n as [|n IH]; [reflexivity|].
+  cbn [repeat rev]. rewrite IH. clear IH. induction n as [|n IH]; [reflexivity|].
+  cbn [repeat app]. rewrite IH. reflexivity.
+Qed.
+
+Lemma revcomp_repeat : forall b n, revcomp (repeat b n) = repeat (comp b) n.
+Proof.
+  intros b n. unfold revcomp. rewrite <- (rev_repeat Z (comp b) n). f_equal.
+  induction n as [|n IH]; [reflexivity|]. cbn [repeat map]. rewrite IH. reflexivity.
+Qed.
+
+Lemma contains_revcomp : forall p s, py_contains (revcomp p) (revcomp s) = py_contains p s.
+Proof.
+  intros p s. apply eq_true_iff_eq. rewrite !contains_iff. split.
+  - intros [a [b H]]. exists (revcomp b), (revcomp a).
+    rewrite <- (revcomp_invol s), H, !revcomp_app, revcomp_invol, <- app_assoc. reflexivity.
+  - intros [a [b ->]]. exists (revcomp b), (revcomp a). rewrite !revcomp_app, <- app_assoc. reflexivity.
+Qed.
+
+(* the filter is strand-symmetric as soon as the tested nucleotides are closed under complement *)
+Definition comp_closed (bases : list Z) : bool :=
+  forallb (fun b => existsb (Z.eqb (comp b)) bases) bases.
+
+Lemma homopolymer_revcomp_le : forall n bases s, comp_closed bases = true ->
+  homopolymer n bases s = true -> homopolymer n bases (revcomp s) = true.
+Proof.
+  intros n bases s Hc H. unfold homopolymer in *. apply existsb_exists in H. destruct H as [b [Hb Hrun]].
+  unfold comp_closed in Hc. rewrite forallb_forall in Hc. specialize (Hc b Hb).
+  apply existsb_exists in Hc. destruct Hc as [b' [Hb' E]]. apply Z.eqb_eq in E. subst b'.
+  apply existsb_exists. exists (comp b). split; [exact Hb'|].
+  rewrite <- revcomp_repeat, contains_revcomp. exact Hrun.
+Qed.
+
+Lemma homopolymer_revcomp : forall n bases s, comp_closed bases = true ->
+  homopolymer n bases (revcomp s) = homopolymer n bases s.
+Proof.
+  intros n bases s Hc. apply eq_true_iff_eq. split; intro H.
+  - rewrite <- (revcomp_invol s). apply homopolymer_revcomp_le; assumption.
+  - apply homopolymer_revcomp_le; assumption.
+Qed.
+
+Lemma bases_closed : comp_closed nuc_stretch_bases = true.
+Proof. vm_compute. reflexivity. Qed.
+
+Lemma any_homopolymer_mirror : forall seqs, any_homopolymer (map revcomp seqs) = any_homopolymer seqs.
+Proof.
+  intro seqs. unfold any_homopolymer. induction seqs as [|s seqs IH]; [reflexivity|].
+  cbn [map existsb]. rewrite IH, (homopolymer_revcomp _ _ s bases_closed). reflexivity.
+Qed.
+
+Lemma chic_mirror_h : forall c L r pre r2 seqs, r_unmapped r = false -> r_cigar r <> [] ->
+  forget_rr (chic_fragment_h c pre (Some (mirror L r)) (mirror_r2 r2) (map revcomp seqs)) =
+  mirror_result L 1 (chic_fragment_h c pre (Some r) r2 seqs).
+Proof.
+  intros c L r pre r2 seqs Hm Hc. unfold chic_fragment_h. rewrite any_homopolymer_mirror.
+  destruct (any_homopolymer seqs); [|apply chic_mirror; assumption].
+  pose proof (chic_mirror c L r true r2 Hm Hc) as H.
+  destruct (chic_fragment c true (Some r) r2) as [|o];
+    destruct (chic_fragment c true (Some (mirror L r)) (mirror_r2 r2)) as [|o']; cbn in H |- *;
+    try discriminate H; try reflexivity.
+  inversion H as [H1]. f_equal.
+  destruct o as [a1 a2 a3 a4 a5 a6 a7 a8], o' as [b1 b2 b3 b4 b5 b6 b7 b8].
+  clear H. unfold drop_rr, mirror_obs, mark_homo in *.
+  cbn [o_ds o_rs o_rz o_rr o_qcfail o_valid o_loc o_cut_strand] in *. subst. reflexivity.
+Qed.
+
+Lemma chic_site_h : forall c cycles mid x reverse clip tail trimmed mx pre r2 seqs,
+  good_mid mid = true -> mx_trimmed mx = trimmed -> (c_nocigar c = false \/ clip = 0) ->
+  r2_ok reverse r2 = true -> any_homopolymer seqs = false ->
+  chic_fragment_h c pre (Some (simulate_chic cycles mid x reverse clip tail trimmed mx)) r2 seqs =
+  Done (site_obs (if reverse then x + 1 else x - 1) (xorb reverse (c_invert c)) (xorb reverse (c_invert c)) None pre).
+Proof. intros. unfold chic_fragment_h. rewrite H3. apply chic_site; assumption. Qed.
+
+Lemma chic_homopolymer_invalid : forall c pre r1 r2 seqs o, any_homopolymer seqs = true ->
+  chic_fragment_h c pre r1 r2 seqs = Done o -> o_valid o = false /\ o_qcfail o = true.
+Proof.
+  intros c pre r1 r2 seqs o Hh H. unfold chic_fragment_h in H. rewrite Hh in H.
+  destruct (chic_fragment c true r1 r2) as [|o0] eqn:E; [discriminate|]. inversion H; subst. clear H.
+  split; [|reflexivity]. cbn [mark_homo o_valid].
+  unfold chic_fragment in E. destruct r1 as [r|]; [|inversion E; reflexivity].
+  destruct (r_unmapped r); [inversion E; reflexivity|].
+  destruct (match r2 with Some (false, rev2) => Bool.eqb (r_rev r) rev2 | _ => false end); [inversion E; reflexivity|].
+  destruct (negb (usable (c_nocigar c) r)); [discriminate|].
+  destruct (chic_site_gen _ _ _ _ _ _ _ _ _ _) as [[[[[[a b] d] e] f] g] h]. inversion E; reflexivity.
 Qed.
